@@ -211,3 +211,25 @@ func (p *Pool) Put(x any) {
 
 // Drain empties the pool (between cases).
 func (p *Pool) Drain() { p.mu.Lock(); p.items = nil; p.mu.Unlock() }
+
+// Map is the twin of sync.Map: every operation is a scheduling point.
+type Map struct{ real sync.Map }
+
+func mapPoint(what string) {
+	if vsched.Active() {
+		vsched.Point("Map." + what)
+	}
+}
+
+func (m *Map) Load(key any) (any, bool)         { mapPoint("Load"); return m.real.Load(key) }
+func (m *Map) Store(key, value any)             { mapPoint("Store"); m.real.Store(key, value) }
+func (m *Map) Delete(key any)                   { mapPoint("Delete"); m.real.Delete(key) }
+func (m *Map) Range(f func(key, value any) bool) { mapPoint("Range"); m.real.Range(f) }
+func (m *Map) LoadOrStore(key, value any) (any, bool) {
+	mapPoint("LoadOrStore")
+	return m.real.LoadOrStore(key, value)
+}
+func (m *Map) LoadAndDelete(key any) (any, bool) {
+	mapPoint("LoadAndDelete")
+	return m.real.LoadAndDelete(key)
+}
